@@ -23,16 +23,16 @@ import (
 // Nothing is executed; a construct the evaluator cannot interpret is reported as undecidable.
 
 type enumOutcome struct {
-	kind   string            // AST node kind selected by the type switch ("" = none of the tested kinds)
-	op     string            // operator constant name selected ("" = none compared equal)
-	labels []string          // other branch decisions taken, e.g. "TagOrNil==nil"
-	roles  map[string]int64  // operand role -> abstract value of the recursive answer
-	result int64             // returned enum value
-	unknownResult bool       // lenient mode: the returned value is not a constant on this path
-	results  []enumRes       // all results of the return, in order
-	descs    []string        // per result: "" when known; "str:<text>" for a constant string; a description from cfg.describe, or "?"
-	isBool bool              // result is a boolean (0/1) rather than an enum value
-	pos    token.Pos
+	kind          string           // AST node kind selected by the type switch ("" = none of the tested kinds)
+	op            string           // operator constant name selected ("" = none compared equal)
+	labels        []string         // other branch decisions taken, e.g. "TagOrNil==nil"
+	roles         map[string]int64 // operand role -> abstract value of the recursive answer
+	result        int64            // returned enum value
+	unknownResult bool             // lenient mode: the returned value is not a constant on this path
+	results       []enumRes        // all results of the return, in order
+	descs         []string         // per result: "" when known; "str:<text>" for a constant string; a description from cfg.describe, or "?"
+	isBool        bool             // result is a boolean (0/1) rather than an enum value
+	pos           token.Pos
 }
 
 type enumRes struct {
@@ -41,18 +41,18 @@ type enumRes struct {
 }
 
 type enumCfg struct {
-	recursive  map[string]bool                       // semantic names of calls whose result is a symbolic enum value (arg 0 names the role)
-	inlined    map[string]func() []enumOutcome        // callees evaluated separately: their outcome tables
-	domain     []int64                                // values of the enum
-	opConsts   map[int64]string                       // operator code -> name
-	opField    string                                 // name of the operator field on the node ("Op")
-	opParamPath []string                              // alternatively: the compared enum is <param0>.<path...> (e.g. p.lexer.Token)
-	presetKinds  map[string]string                    // dynamic type of interface-typed parameters, by parameter name: every type test on them is decided
-	presetParams map[string]int64                     // value of integer/enum parameters, by parameter name
+	recursive    map[string]bool                                                                      // semantic names of calls whose result is a symbolic enum value (arg 0 names the role)
+	inlined      map[string]func() []enumOutcome                                                      // callees evaluated separately: their outcome tables
+	domain       []int64                                                                              // values of the enum
+	opConsts     map[int64]string                                                                     // operator code -> name
+	opField      string                                                                               // name of the operator field on the node ("Op")
+	opParamPath  []string                                                                             // alternatively: the compared enum is <param0>.<path...> (e.g. p.lexer.Token)
+	presetKinds  map[string]string                                                                    // dynamic type of interface-typed parameters, by parameter name: every type test on them is decided
+	presetParams map[string]int64                                                                     // value of integer/enum parameters, by parameter name
 	knownCalls   map[string]func(kindOfArg func(ssa.Value) (string, bool), c *ssa.Call) (int64, bool) // pure predicates that can be answered from preset kinds
-	lenient    bool                                   // unknown branch conditions fork (labelled "?"), unknown results are recorded with unknownResult
-	describe   func(e *enumEvaluator, s *enumState, v ssa.Value) (string, bool) // lenient mode: names an uninterpreted value; forks on it are labelled "<name>=T" / "<name>=F" instead of "?"
-	maxPaths   int
+	lenient      bool                                                                                 // unknown branch conditions fork (labelled "?"), unknown results are recorded with unknownResult
+	describe     func(e *enumEvaluator, s *enumState, v ssa.Value) (string, bool)                     // lenient mode: names an uninterpreted value; forks on it are labelled "<name>=T" / "<name>=F" instead of "?"
+	maxPaths     int
 }
 
 type enumState struct {
